@@ -11,6 +11,7 @@ import (
 	"encoding/json"
 	"fmt"
 	"os"
+	"time"
 )
 
 type Replay struct {
@@ -203,3 +204,7 @@ func RunFunc(f func()) (end string) {
 	f()
 	return "done"
 }
+
+// RunUntilIdle lets the goroutines started by the harness run until they all block.
+// The engine schedules its coroutines deterministically; natively this is a short sleep.
+func RunUntilIdle() { time.Sleep(60 * time.Millisecond) }
